@@ -517,7 +517,8 @@ def rule_indicator(repo: Repo) -> List[Ob]:
             if isinstance(e, ast.Call) and call_name(e) in ("all", "any") and e.args and isinstance(e.args[0], (ast.ListComp, ast.GeneratorExp)):
                 elt = e.args[0].elt
                 if isinstance(elt, ast.BoolOp) and isinstance(elt.op, ast.Or) and all(isinstance(x, ast.Compare) and isinstance(x.ops[0], ast.Eq) for x in elt.values):
-                    consts = sorted(src(x.comparators[0]) for x in elt.values)
+                    # v == 0 or 0 == v: the constant side
+                    consts = sorted(src(x.comparators[0] if not isinstance(x.left, ast.Constant) else x.left) for x in elt.values)
                     return call_name(e), consts
                 if isinstance(elt, ast.Compare) and len(elt.ops) == 1 and isinstance(elt.ops[0], ast.In):
                     consts = sorted(src(x) for x in getattr(elt.comparators[0], "elts", []))
